@@ -47,6 +47,58 @@ enum Shape {
     Text(String),
 }
 
+/// Variants (and a struct's fields) named like the atoms the format gives a meaning of its own.
+#[derive(Debug, Clone, PartialEq, Serialize, Deserialize)]
+enum Reserved {
+    #[serde(rename = "nil")]
+    Nil,
+    #[serde(rename = "undefined")]
+    Undefined,
+    #[serde(rename = "true")]
+    True(i32),
+    #[serde(rename = "false")]
+    False { a: u8 },
+    #[serde(rename = "ok")]
+    Ok,
+    #[serde(rename = "error")]
+    Error(String),
+    #[serde(rename = "infinity")]
+    Infinity(i32, i32),
+    #[serde(rename = "")]
+    Empty,
+    #[serde(rename = "Elixir.Foo")]
+    Dotted,
+    #[serde(rename = "sch\u{f6}n")]
+    NonAscii(u8),
+}
+
+#[derive(Debug, Clone, PartialEq, Serialize, Deserialize)]
+struct ReservedFields {
+    nil: i32,
+    undefined: Option<i32>,
+    #[serde(rename = "true")]
+    yes: bool,
+    r#type: String,
+    r#ref: Vec<u8>,
+    #[serde(rename = "sch\u{f6}n")]
+    pretty: u8,
+}
+
+fn gen_reserved(rng: &mut Rng) -> Reserved {
+    match rng.below(10) {
+        0 => Reserved::Nil,
+        1 => Reserved::Undefined,
+        2 => Reserved::True(gen_i64(rng) as i32),
+        3 => Reserved::False { a: rng.next_u32() as u8 },
+        4 => Reserved::Ok,
+        5 => Reserved::Error(gen_string(rng)),
+        6 => Reserved::Infinity(1, 2),
+        7 => Reserved::Empty,
+        8 => Reserved::Dotted,
+        _ => Reserved::NonAscii(7),
+    }
+}
+
 /// Variant payloads that are themselves compound: a newtype variant around a tuple, a tuple struct, an array,
 /// a sequence, a map, an option, a unit, and around another enum in each of its shapes.
 #[derive(Debug, Clone, PartialEq, Serialize, Deserialize)]
@@ -353,6 +405,17 @@ pub fn run(ctx: &Ctx) {
         rt(ctx, &format!("Option<i64>/{}", width_class_i(oi.unwrap() as i128)), &oi);
         let w = gen_wrap(&mut rng, 0);
         rt(ctx, wrap_class(&w), &w);
+        let rv = gen_reserved(&mut rng);
+        rt(ctx, &format!("enum/reserved-name/{}", match &rv { Reserved::Nil => "nil", Reserved::Undefined => "undefined", Reserved::True(_) => "true", Reserved::False { .. } => "false", Reserved::Empty => "empty", Reserved::Dotted => "dotted", Reserved::NonAscii(_) => "non-ascii", _ => "other" }), &rv);
+        rt(ctx, "Vec<enum/reserved-name>", &vec![gen_reserved(&mut rng), gen_reserved(&mut rng)]);
+        // an option around the variants spelled like "no value" is the directly-nested-option shape the
+        // property excludes; every other reserved name is unambiguous inside an option
+        let inner = gen_reserved(&mut rng);
+        if !matches!(inner, Reserved::Nil | Reserved::Undefined) {
+            rt(ctx, "Option<enum/reserved-name>", &Some(inner));
+        }
+        let rf = ReservedFields { nil: 1, undefined: if rng.bool() { Some(2) } else { None }, yes: rng.bool(), r#type: gen_string(&mut rng), r#ref: vec![1, 2], pretty: 3 };
+        rt(ctx, "struct/reserved-field-names", &rf);
         let res: Result<(i32, i32), String> = if rng.bool() { Ok((1, gen_i64(&mut rng) as i32)) } else { Err(gen_string(&mut rng)) };
         rt(ctx, "Result<(i32,i32),String>", &res);
         let res2: Result<Shape, Wrap> = if rng.bool() { Ok(gen_shape(&mut rng)) } else { Err(gen_wrap(&mut rng, 1)) };
